@@ -129,7 +129,7 @@ func (d *Downstream) closeWithError(ctx context.Context, cause error) (err error
 		}
 	}
 
-	resp, err := d.wireConn.SendDownstreamCloseRequest(ctx, &message.DownstreamCloseRequest{
+	resp, err := d.currentWireConn().SendDownstreamCloseRequest(ctx, &message.DownstreamCloseRequest{
 		StreamID: d.ID,
 	})
 	if err != nil {
@@ -195,7 +195,7 @@ func (d *Downstream) ReadMetadata(ctx context.Context) (*DownstreamMetadata, err
 	case <-ctx.Done():
 		return nil, ctx.Err()
 	case meta := <-d.metadataCh:
-		if err := d.wireConn.SendDownstreamMetadataAck(ctx, &message.DownstreamMetadataAck{
+		if err := d.currentWireConn().SendDownstreamMetadataAck(ctx, &message.DownstreamMetadataAck{
 			RequestID:    meta.RequestID,
 			ResultCode:   message.ResultCodeSucceeded,
 			ResultString: "OK",
@@ -527,6 +527,13 @@ func (d *Downstream) assignUpstreamInfoAlias(info *message.UpstreamInfo) map[uin
 	}
 }
 
+// currentWireConn returns the wire connection the stream is bound to (it changes when the stream resumes).
+func (d *Downstream) currentWireConn() *wire.ClientConn {
+	d.mu.RLock()
+	defer d.mu.RUnlock()
+	return d.wireConn
+}
+
 func (d *Downstream) isClosed() bool {
 	select {
 	case <-d.ctx.Done():
@@ -544,32 +551,34 @@ func (d *Downstream) resume(parentConn *Conn, newConn *wire.ClientConn) error {
 	if !d.state.Is(streamStatusResuming) {
 		return fmt.Errorf("invalid state want[%v] but[%v]", streamStatusResuming, d.state)
 	}
+	d.mu.Lock()
 	d.wireConn = newConn
+	d.mu.Unlock()
 
 	var resErr error
 	// subscribe once: a second subscription of the same alias on one wire connection is refused, so
 	// it must not be repeated when the broker answers the resume request with a conflict
-	dpsCh, err := d.wireConn.SubscribeDownstreamChunk(d.ctx, d.idAlias, d.Config.QoS)
+	dpsCh, err := newConn.SubscribeDownstreamChunk(d.ctx, d.idAlias, d.Config.QoS)
 	if err != nil {
 		resErr = fmt.Errorf("failed to SubscribeDownstreamChunk: %w", err)
 	}
 	var ackCompCh <-chan *message.DownstreamChunkAckComplete
 	if resErr == nil {
-		ackCompCh, err = d.wireConn.SubscribeDownstreamChunkAckComplete(d.ctx, d.idAlias)
+		ackCompCh, err = newConn.SubscribeDownstreamChunkAckComplete(d.ctx, d.idAlias)
 		if err != nil {
 			resErr = fmt.Errorf("failed to SubscribeDownstreamChunkAckComplete: %w", err)
 		}
 	}
 	var metaCh <-chan *message.DownstreamMetadata
 	if resErr == nil {
-		metaCh, err = parentConn.subscribeDownstreamMetadata(d.ctx, d.wireConn, d.idAlias, d.Config.Filters)
+		metaCh, err = parentConn.subscribeDownstreamMetadata(d.ctx, newConn, d.idAlias, d.Config.Filters)
 		if err != nil {
 			resErr = fmt.Errorf("failed to subscribeDownstreamMetadata: %w", err)
 		}
 	}
 	if resErr == nil {
 		retry.Do(func() (end bool) {
-			resp, err := d.wireConn.SendDownstreamResumeRequest(d.ctx, &message.DownstreamResumeRequest{
+			resp, err := newConn.SendDownstreamResumeRequest(d.ctx, &message.DownstreamResumeRequest{
 				StreamID:             d.ID,
 				DesiredStreamIDAlias: d.idAlias,
 			})
